@@ -14,9 +14,11 @@ def remove_open_circuit_elements(network: Network) -> Network:
 
 def remove_short_circuit_elements(network: Network, keep: list[NortenTheveninElement] = []) -> Network:
     branches = network.branches
-    short_circuits = [b for b in network.branches if is_short_circuit(b.element) and b.element not in keep]
-    short_circuit_nodes = [(vs.node1, vs.node2) if not network.is_zero_node(vs.node1) else (vs.node2, vs.node1) for vs in short_circuits]
-    for an, rn in short_circuit_nodes:
+    def short_circuits(branches: list[Branch]) -> list[Branch]:
+        return [b for b in branches if is_short_circuit(b.element) and b.element not in keep]
+    while len(short_circuits(branches)) > 0:
+        vs = short_circuits(branches)[0]
+        an, rn = (vs.node1, vs.node2) if not network.is_zero_node(vs.node1) else (vs.node2, vs.node1)
         branches = [Branch(rn, b.node2, b.element) if b.node1 == an else b for b in branches]
         branches = [Branch(b.node1, rn, b.element) if b.node2 == an else b for b in branches]
         branches = [b for b in branches if b.node1 != b.node2]
